@@ -152,7 +152,7 @@ func c05Message(x *runCtx, r *mrand.Rand, id kex.CipherSuiteID) {
 		}
 		sc := s
 		pl := append([]byte{}, plain...)
-		want := fmt.Sprintf("ok len=%d impl-opens self-ok", len(wire))
+		want := fmt.Sprintf("ok len=%d impl-opens self-ok:hyp-ok", len(wire))
 		x.r.Case(fmt.Sprintf("model-sender cipher=%d plain=%x", s.ID, plain), true, fmt.Sprintf("%s:model-sender", s.ID))
 		x.c.add(pending{check: "C05.model-sender-opened-by-impl",
 			line:  fmt.Sprintf("tunnel.encrypt %d %s %s %s %s", s.ID, gen.Hex(s.SEK), gen.Hex(s.SVK), gen.Hex(rnd), gen.Hex(plain)),
